@@ -26,3 +26,12 @@ func verif_udp_payload_round_trip(buf []byte, laddr, raddr *net.UDPAddr) {
 	verif.Assert(err == nil && verif.Same(back, buf), "payload_decodes_to_the_datagram")
 	verif.Assert(m.LocalAddr == laddr && m.RemoteAddr == raddr, "addresses_unchanged")
 }
+
+// Library contract (trusted, listed): a UDP read reports at most the buffer's length.
+//
+//verif:contract (*net.UDPConn).ReadFromUDP
+//verif:trusted
+func verif_UDPConn_ReadFromUDP(c *net.UDPConn, b []byte) {
+	n, _, _ := c.ReadFromUDP(b)
+	verif.Ensures(0 <= n && n <= len(b), "udp_read_contract")
+}
